@@ -190,6 +190,24 @@ for _pid, _x in EXTRA4.items():
     _c = CLAIMS[_pid]
     CLAIMS[_pid] = (_c[0], _c[1], _c[2] + _x, _c[3], _c[4])
 
+EXTRA5 = {
+    'C01': ' In every plain sweep the three accessors are asked in an order that rotates from probe to probe.',
+    'C02': ' In every plain sweep the three accessors are asked in an order that rotates from probe to probe.',
+    'C03': ' The edge source also has eras whose UNTIL in universal time lies hours after a rule transition of the same day, and a policy adopted while its daylight saving of the year before is still on; the last generated source has such near-UNTIL eras too.',
+    'C05': ' Zones restored from their saved form and zones obtained by name from an unsorted user registry take part in the round-trip sweep.',
+    'C06': ' OffsetDateTime::toEpochDays at, before and after every UTC midnight for offsets on both sides of Greenwich; the names of the days of the week and of the months, and LocalDate::printTo.',
+    'C08': ' Histories draw local times inside the repeated hour of autumn changes and use a zone that ends in an era without rules; the second year of a pair may lie outside the zone data.',
+    'C09': ' Flash-string parse overloads at every length (exactly sized heap copies) and the Unix-seconds factories with the sentinel run under the sanitizers; AddressSanitizer reports are identified by their first frame with a source position.',
+    'C13': ' ... and through syncNow() itself; the real-constant configuration contains a value exactly 65536 s after another one.',
+    'C16': ' Unsorted user registries that begin with their smallest name: by name / id / index / restored agree; abbreviation and DST shift of a zone whose shared processor was last used by another zone equal those of its restored counterpart.',
+    'C18': ' The resolved UNTIL month is compared as well as the day.',
+    'C19': ' A generator without and then one with DST-only detection in one process; dateutil also with sampling intervals of 24, 36 and 48 h.',
+    'C20': ' numRules and numLetters of every generated policy equal the entries of its arrays; a source with names differing only in - and _ is among the compiled sources.',
+}
+for _pid, _x in EXTRA5.items():
+    _c = CLAIMS[_pid]
+    CLAIMS[_pid] = (_c[0], _c[1], _c[2] + _x, _c[3], _c[4])
+
 def main():
     props = [json.loads(l) for l in open(os.path.join(VERIF, 'properties.jsonl'))]
     checks = []
